@@ -403,7 +403,7 @@ func runCheck(id, tier string, seed int) int {
 	assumptions = append(assumptions,
 		"integers: mathematical Int with explicit two's-complement wrap-around on every + - * conversion (not treated as unbounded)",
 		"goroutines: each function is verified with sequential semantics; spawned goroutines are not followed",
-		"strings and slices are shorter than 2^60 bytes/elements")
+		"every string, slice and map that exists in memory has at most 2^31 elements (modelling bound; allocation sizes computed from client-supplied integers are not covered by it and must be bounded by the code)")
 	for _, n := range noMeasure {
 		assumptions = append(assumptions, "termination not proved (no decreases clause): "+n)
 	}
